@@ -73,7 +73,15 @@ int redirect_path(int *child, REPROC_STREAM stream, const char *path)
     return -errno;
   }
 
-  *child = r;
+  // Keep the file out of the way of the child process standard streams.
+  int fd = r;
+  r = handle_nonstd(&fd);
+  if (r < 0) {
+    handle_destroy(fd);
+    return r;
+  }
+
+  *child = fd;
 
   return 0;
 }
